@@ -313,6 +313,16 @@ class C10(Check):
                 unf = [u for u in (res.get("unfixedFindings") or []) if u.get("path") == s["file"]]
                 if len(unf) < nfind:
                     add("findings-not-reported-unfixed", s["kind"], {"file": s["file"], "codemod": cid, "findings": nfind, "unfixed": len(unf)})
+        # (2b) a transient fault addressed at codemod k must not make LATER codemods treat the (perfectly readable) file as failed
+        for s in info["seam"]:
+            if not s.get("fired") or s["kind"] == "vanish-before-read":
+                continue
+            for j in range(s["k"] + 1, len(ids)):
+                cid = ids[j]
+                fa = [x for x in ((rf.get(cid) or [{}])[0].get("failedFiles") or []) if x.endswith("/" + s["file"])]
+                fr = [x for x in ((rr.get(cid) or [{}])[0].get("failedFiles") or []) if x.endswith("/" + s["file"])]
+                if fa and not fr:
+                    add("fault-leaks-to-later-codemod", s["kind"], {"file": s["file"], "faulted_codemod_index": s["k"], "later_codemod": cid})
         # (3) everything else as in the reference
         excluded = set(info["bad"]) | {s["file"] for s in info["seam"] if s.get("fired")}
         for f in sorted(set(ref["changed"]) | set(flt["changed"])):
